@@ -92,4 +92,11 @@ P['C04'] = dict(
     find_bad=find_bad_struct,
 )
 
+P['C08'] = dict(
+    rule='common-dialect messages (those with strings first; 40 in quick, all in thorough) in v1 and v2, signed and unsigned, in six payload encodings (canonical, not zero-truncated, random bytes after NUL bytes, unknown trailing bytes beyond the extended size, fully random, sparse random) forwarded through 3 dialect hops (each hop: frame.Reader with the dialect -> frame.Writer.Write unchanged; the implementation\'s output of hop k is the input of hop k+1) and 2 raw hops (bytes must be identical); unknown ids through a dialect router; a received frame edited (message replaced by a random value of its type) then Node.FixFrame with and without OutKey, then validated at a next hop (keyed when the frame carries the signed flag). Non-trivial: a frame was delivered.',
+    assumptions=['signature validation after FixFrame is checked for frames that carry the signed flag (FixFrame does not set the flag on an unsigned frame; recorded in DESIGN.md)'],
+    mismatch_meaning='a hop delivered / re-emitted something different from the model proved to forward transparently: concrete wire bytes',
+    find_bad=find_bad_struct,
+)
+
 KNOWN_MATCH = {}
